@@ -69,7 +69,6 @@ func seededMutants(prop string) []Mutant {
 	return out
 }
 
-
 var mutantTable []Mutant
 
 func addMutants(ms ...Mutant) { mutantTable = append(mutantTable, ms...) }
